@@ -102,7 +102,7 @@ def t_resample(sess, n_snap, m, n_samples):
                     ce = {"name": name, "case": {}, "cls": {"kind": "zero-volume grain drawn", "trigger": "uniform variate exactly 0.0"}}
                     if not reported:
                         reported = name
-                        ce["replay"] = "vf.props.C15:replay_zero_volume"
+                        ce["replay"] = "vf.props.replays:c15_resample"
                     else:
                         ce["same_as"] = reported
                     sess.cex.append(ce)
@@ -226,3 +226,8 @@ def replay_shape(case):
         return {"reproduced": False, "detail": f"ValueError: {e}"}
     except Exception as e:  # noqa: BLE001
         return {"reproduced": True, "detail": f"shapes {o} and {f} not rejected with ValueError but failed later with {type(e).__name__}: {e}"}
+
+
+def default_cex(name):
+    """Generic public-API replay for verdicts that carry no more specific counterexample."""
+    return {"replay": "vf.props.replays:c15_resample", "case": {}, "cls": {"kind": "resampling does not follow the volume distribution"}}
